@@ -31,6 +31,13 @@ Definition holds_rotate (init n : Z) (before : meta) (after : outcome meta) : bo
   | _ => false
   end.
 
+(* a LATE caller of rotate_log - same arguments (n, init+n), but the log has already been rotated to term count n+1 and
+   somebody may have appended to the new term: nothing may change (in particular the new term's tail is not reset) *)
+Definition meta_eqb (a b : meta) : bool :=
+  (tail0 a =? tail0 b) && (tail1 a =? tail1 b) && (tail2 a =? tail2 b) && (count a =? count b).
+Definition holds_rotate_late (before : meta) (after : outcome meta) : bool :=
+  match after with Ok s' => meta_eqb s' before | _ => false end.
+
 Definition holds_consistency (init n c : Z) (accepted : bool) : bool :=
   Bool.eqb accepted (c =? n).
 
